@@ -128,6 +128,32 @@ def name_case(draw) -> Dict[str, Any]:
 
 
 @st.composite
+def bare_local_case(draw) -> Dict[str, Any]:
+    """The bare '<something>.local.' form (accepted in non-strict mode only): nothing, an instance label, or <sub>._sub in front of
+    'local.', with the label empty, short, or around the 63-byte limit."""
+    k = draw(st.sampled_from([0, 1, 5, 24, 58, 59, 62, 63, 64]))
+    label = gen.fit_bytes(draw(st.text(alphabet=INSTANCE_ALPHA, min_size=0, max_size=max(k, 1))), k) if k else ''
+    if label.startswith('.') or label.endswith('.') or '..' in label:
+        label = label.replace('.', '-')
+    shape = draw(st.sampled_from(['inst', 'sub', 'sub', 'sub-only', 'empty-sub', 'dot-x-sub', 'nothing', 'ctrl-sub']))
+    if shape == 'inst':
+        head = label + '.' if label else ''
+    elif shape == 'sub':
+        head = label + '._sub.'
+    elif shape == 'sub-only':
+        head = '_sub.'
+    elif shape == 'empty-sub':
+        head = '._sub.'
+    elif shape == 'dot-x-sub':
+        head = '.x._sub.'
+    elif shape == 'ctrl-sub':
+        head = (label or 's') + draw(st.sampled_from(['\x00', '\x1f', '\x7f'])) + '._sub.'
+    else:
+        head = ''
+    return {'kind': 'name', 's': head + 'local.', 'strict': draw(st.sampled_from([False, False, False, True])), 'viol': ['bare-local-' + shape]}
+
+
+@st.composite
 def random_name_case(draw) -> Dict[str, Any]:
     s = draw(st.text(alphabet=st.one_of(st.sampled_from(list('._-_aZ9 \n')), st.characters(max_codepoint=0x2FF)),
                      max_size=draw(st.sampled_from([10, 40, 300]))))
@@ -192,7 +218,7 @@ def txt_case(draw) -> Dict[str, Any]:
 
 
 def strategy(tier: str):
-    return st.one_of(name_case(), name_case(), name_case(), random_name_case(), txt_case(), txt_case())
+    return st.one_of(name_case(), name_case(), name_case(), random_name_case(), bare_local_case(), txt_case(), txt_case())
 
 
 def _txt_input(items: List[List[Any]]):
